@@ -77,6 +77,37 @@ impl Elem for i64 {
     }
 }
 
+impl Elem for u32 {
+    const NAME: &'static str = "u32";
+    fn from_i(v: i64) -> Self {
+        ((v + 100_000).clamp(0, 500_000_000) as u32).saturating_mul(7)
+    }
+    fn nan() -> Option<Self> {
+        None
+    }
+    fn top() -> Self {
+        u32::MAX
+    }
+    fn bottom() -> Self {
+        0
+    }
+}
+impl Elem for u8 {
+    const NAME: &'static str = "u8";
+    fn from_i(v: i64) -> Self {
+        (v + 120).clamp(0, 255) as u8
+    }
+    fn nan() -> Option<Self> {
+        None
+    }
+    fn top() -> Self {
+        u8::MAX
+    }
+    fn bottom() -> Self {
+        0
+    }
+}
+
 fn classify(m: &Monotonic) -> MonoSpec {
     match m {
         Monotonic::Rising { strict: true } => MonoSpec::RisingStrict,
@@ -433,6 +464,8 @@ fn body(ctx: &Ctx) -> (Summary, Meta) {
                     check_word::<f32>(w, &mut out, &mut st);
                     check_word::<i32>(w, &mut out, &mut st);
                     check_word::<i64>(w, &mut out, &mut st);
+                    check_word::<u32>(w, &mut out, &mut st);
+                    check_word::<u8>(w, &mut out, &mut st);
                 });
                 if *len == 0 {
                     // the empty vector
@@ -453,6 +486,7 @@ fn body(ctx: &Ctx) -> (Summary, Meta) {
             Job::Long { len, base } => {
                 long_check::<f64>(*len, *base, &mut out, &mut st);
                 long_check::<i32>(*len, *base, &mut out, &mut st);
+                long_check::<u32>(*len, *base, &mut out, &mut st);
             }
             Job::Runs { len, all3 } => {
                 runs_check::<f64>(*len, *all3, &mut out, &mut st);
@@ -473,7 +507,7 @@ fn body(ctx: &Ctx) -> (Summary, Meta) {
         sum.total.outcome(format!("impl={g:?},spec={w:?}"));
     }
     let meta = Meta {
-        rule: "every relation word over {<,=,>} up to the length bound, realised as prefix sums for f64/f32/i32/i64, each as contiguous array, every-2nd-element view of a poisoned array and reversed view; every non-empty NaN mask on every word up to the NaN bound (f64, f32); long words (one base relation + <= 2 deviations; NaN at every position); run-structured words (every word of 2 runs, and of 3 runs with all / selected boundaries) up to length 2080; every word also realised with the type's extreme values (+-inf, MIN/MAX) in place of its largest and smallest level. Oracle: classifier written from the statement (counts of <,=,>); NaN: never Rising. states = distinct (implementation result, spec class, last relation) triples reached = reachable states of the product of the implementation automaton and the spec automaton. Non-trivial = word of length >= 2 or NaN vector.".into(),
+        rule: "every relation word over {<,=,>} up to the length bound, realised as prefix sums for f64/f32/i32/i64/u32/u8, each as contiguous array, every-2nd-element view of a poisoned array and reversed view; every non-empty NaN mask on every word up to the NaN bound (f64, f32); long words (one base relation + <= 2 deviations; NaN at every position); run-structured words (every word of 2 runs, and of 3 runs with all / selected boundaries) up to length 2080; every word also realised with the type's extreme values (+-inf, MIN/MAX) in place of its largest and smallest level. Oracle: classifier written from the statement (counts of <,=,>); NaN: never Rising. states = distinct (implementation result, spec class, last relation) triples reached = reachable states of the product of the implementation automaton and the spec automaton. Non-trivial = word of length >= 2 or NaN vector.".into(),
         bounds: format!("relation words of length 0..{maxlen} (exhaustive: {} words); NaN masks on words of length <= {nanmax}; long words of lengths {:?}{}", (0..=maxlen).map(|l| 3u64.pow(l as u32)).sum::<u64>(), if quick { longs.clone() } else { vec![14, 130] }, if quick { "" } else { " (every length in the closed interval)" }),
         assumptions: vec![],
         extra: vec![("product_states".into(), Json::Arr(st.iter().map(|(g, w, l)| Json::str(&format!("{g:?}/{w:?}/{l}"))).collect()))],
